@@ -134,6 +134,30 @@ class WeirdStr(str):
 WEIRD = set()        # id families that are WeirdStr in the current case: "r" resource ids 1..3, "a" the agent id
 
 
+class IdSeq(list):
+    """a list subclass (a caller's own sequence type)"""
+
+
+REQ_KINDS = {
+    "t": tuple,                                   # a tuple
+    "g": lambda ids: (x for x in ids),            # one-shot: a generator expression
+    "i": iter,                                    # one-shot: a list iterator
+    "m": lambda ids: map(lambda x: x, ids),       # one-shot: map(...)
+    "f": lambda ids: filter(lambda x: True, ids), # one-shot: filter(...)
+    "k": lambda ids: {x: None for x in ids}.keys() if len(set(ids)) == len(ids) else tuple(ids),   # a dict's key view
+    "q": lambda ids: __import__("collections").deque(ids),
+    "s": IdSeq,
+}
+
+
+def as_request(ids, kind):
+    """the `resources` argument of execute_operation / IntegratedCell.execute as the caller passes it: the same ids in
+    the same order as a list (no mark), or as another iterable type - the one-shot ones can be walked only once"""
+    if ids is None or not kind:
+        return ids
+    return REQ_KINDS[kind](list(ids))
+
+
 def opn(n):
     return f"op{n}"
 
@@ -266,7 +290,8 @@ class Impl:
         ctrl = cs.controller
         C = self.o.m_controller
         op, prio = opn(int(t[1])), int(t[2])
-        req = None if t[3] == "none" else ([] if t[3] == "-" else [rn(int(x)) for x in t[3].split(",")])
+        rtok, _, rkind = t[3].partition("~")
+        req = None if rtok == "none" else ([] if rtok == "-" else [rn(int(x)) for x in rtok.split(",")])
         script = t[4].split("@")[0]
         cp_acts = {}
         for e in t[4].split("@")[1:]:
@@ -368,7 +393,7 @@ class Impl:
                     def boom(*a, **k):
                         raise make_exc(post, "pool")
                     cell.quality_pool.allocate = boom
-                cres = cell.execute(agent(), op, work, resources=req,
+                cres = cell.execute(agent(), op, work, resources=as_request(req, rkind),
                                     validate_fn=None if val == "absent" else validate, priority=prio)
                 res = captured[0] if captured else None
                 out = (f"cell:{show_bool(cres.success)} {cres.blocked_by or 'none'} out:{show_bool(cres.output is not None)} "
@@ -381,7 +406,7 @@ class Impl:
                 info["has_output"] = cres.output is not None
                 info["tracked"] = "agent" in cell.agent_operations
             else:
-                res = cs.execute_operation(op, agent(), work, resources=req,
+                res = cs.execute_operation(op, agent(), work, resources=as_request(req, rkind),
                                            validate_fn=None if val == "absent" else validate, priority=prio)
                 out = show_coord(res)
                 info["success"] = bool(res.success)
@@ -699,6 +724,8 @@ def gen_exec(rng, op, nres, others, fault=None, cb=None):
     if rng.random() < 0.04:
         req.insert(rng.randrange(len(req) + 1), 9)      # unregistered id
     rs = ",".join(map(str, req)) if req else rng.choice(["-", "none"])
+    if rs != "none" and rng.random() < 0.3:
+        rs += "~" + rng.choice(sorted(REQ_KINDS))     # the request passed as another iterable type (some are one-shot)
     cps = rng.choice(CP_SCRIPTS)
     a = rng.random()
     if a < 0.55:
@@ -913,6 +940,26 @@ def cnest_table():
     return cases
 
 
+def request_kind_table():
+    """the `resources` argument as every iterable type (list, tuple, generator, iterator, map, filter, dict keys view,
+    deque, list subclass) x request shapes (empty, one, two, repeated, unknown id) x who holds what x both layers"""
+    cases = []
+    for kind in [""] + sorted(REQ_KINDS):
+        for req in ("-", "1", "1,2", "2,1", "1,1", "1,2,1", "2,9"):
+            for hold in ("free", "r2-held", "r1-preemptable"):
+                for layer in ("exec", "cell"):
+                    lines = ["cfg none none none priority", f"res 1 {'1' if hold == 'r1-preemptable' else '0'}", "res 2 0"]
+                    if hold == "r2-held":
+                        lines += ["start 2 4", "acq 2 2"]
+                    elif hold == "r1-preemptable":
+                        lines += ["start 2 1", "acq 2 1"]
+                    rs = req + (f"~{kind}" if kind else "")
+                    lines.append(f"{layer} 1 3 {rs} bbbb n:ok yes" + (" ok" if layer == "cell" else ""))
+                    lines.append("exec 3 3 1,2 bbbb n:ok yes")
+                    cases.append({"lines": lines, "note": "exhaustive: request passed as every iterable type"})
+    return cases
+
+
 def gen_tracked(rng):
     """public attribute of the live cell assigned from outside: agent_operations names a live operation of somebody
     else (or nothing that exists) when the cell executes; that operation and what it holds are not the cell's business"""
@@ -1004,3 +1051,89 @@ def gen_ring_again(rng):
     lines += [f"start {v} {p2}", f"acq {v} {v}", f"acq {pred} {v}", f"acq {v} {v % k + 1}", "deadlock",
               rng.choice(["watchdog", "watchdog", "maint"]), "deadlock"]
     return {"lines": lines, "note": "ring with lead-in operations, handled, formed again with the same id"}
+
+
+DAY = 86_400_000_000          # microseconds
+HOUR = 3_600_000_000
+GAPS = [1, 1_000_000, HOUR, 2 * HOUR, DAY - HOUR, DAY - 1, DAY, DAY + 1, DAY + HOUR, 2 * DAY + 23 * HOUR,
+        3 * DAY + 5_000_000, 7 * DAY, 365 * DAY]
+
+
+def _ring_lines(rng, order, k):
+    """every ring member takes its own resource, then asks for the next one's (in random order)"""
+    lines = [f"acq {o} {o}" for o in order]
+    closing = [f"acq {o} {o % k + 1}" for o in order]
+    rng.shuffle(closing)
+    return lines, closing
+
+
+def gen_long_gaps(rng):
+    """C15 (and the watchdog's timeouts): a clock that moves in hours, days and years between the starts of the
+    operations and before the watchdog looks - ages of a day and more, exactly a day, a day off by a microsecond, ages
+    whose time-of-day part is ordered the other way round than the ages themselves; sometimes a clock that stands
+    still.  The victim rule is judged against the start times the harness recorded."""
+    k = rng.choice([2, 2, 3])
+    strat = rng.choice(["oldest", "oldest", "oldest", "priority"])
+    lim = rng.choice(["none"] * 5 + [str(DAY), str(2 * DAY)])
+    lines = [f"cfg {lim} none none {strat}"] + [f"res {r} 0" for r in range(1, k + 1)]
+    order = list(range(1, k + 1))
+    rng.shuffle(order)
+    style = rng.random()
+    for j, o in enumerate(order):
+        lines.append(f"start {o} {rng.randint(0, 5)}")
+        if style < 0.15:
+            continue                                   # the clock stands still: everybody has the same age
+        if style < 0.55 and j == 0:
+            lines.append(f"adv {rng.choice([DAY, DAY + HOUR, 2 * DAY + 23 * HOUR - 5_000_000, 3 * DAY])}")   # the oldest is days old ...
+        elif style < 0.55:
+            lines.append(f"adv {rng.choice([1, HOUR, 2 * HOUR, 5_000_000])}")                   # ... the others hours
+        else:
+            lines.append(f"adv {rng.choice(GAPS)}")
+    if rng.random() < 0.3:
+        o = rng.choice(order)
+        lines += [f"flag {o} r 1", f"flag {o} e 1", f"flag {o} v 1"] + [f"advance {o}"] * rng.choice([2, 5])
+    own, closing = _ring_lines(rng, order, k)
+    lines += own + closing
+    if rng.random() < 0.5:
+        lines.append(f"adv {rng.choice(GAPS)}")
+    lines += ["deadlock", rng.choice(["watchdog", "watchdog", "maint"]), "deadlock", "watchdog"]
+    return {"lines": lines, "note": "clock gaps of hours / days / years"}
+
+
+def gen_boost_inversion(rng):
+    """C15: priority inheritance has run before the watchdog looks (run_maintenance, or check_and_boost then
+    watchdog.execute).  A boost travels along the FIRST recorded edge of each operation, so a ring member whose first
+    wait leaves the ring (it asked an outsider first) is lifted by a high-priority lead-in operation while the other
+    members are not: the priorities the watchdog sees differ from the ones the operations were started with."""
+    k = rng.choice([2, 2, 3])
+    strat = rng.choice(["priority", "priority", "priority", "priority", "oldest"])
+    lines = [f"cfg none none none {strat}"] + [f"res {r} 0" for r in range(1, k + 2)]
+    order = list(range(1, k + 1))
+    rng.shuffle(order)
+    prios = dict(zip(order, rng.sample(range(1, 7), k)))
+    E, D = 7, 8
+    for o in order:
+        lines.append(f"start {o} {prios[o]}")
+        if rng.random() < 0.5:
+            lines.append(f"adv {rng.choice([1, 2])}")
+    lines.append(f"start {E} {rng.choice([0, 0, 3, 9])}")
+    leads = [D] if rng.random() < 0.85 else [D, 9]
+    for x in leads:
+        lines.append(f"start {x} {rng.choice([9, 9, 9, 8, 0, 4])}")
+    own, closing = _ring_lines(rng, order, k)
+    lines += own + [f"acq {E} {k + 1}"]
+    a = rng.choice(order)                      # the member that also waits for the outsider
+    outside = f"acq {a} {k + 1}"
+    c = rng.random()
+    if c < 0.7:
+        closing.insert(0, outside)             # its FIRST recorded wait leaves the ring
+    elif c < 0.9:
+        closing.insert(rng.randrange(len(closing) + 1), outside)
+    target = a if rng.random() < 0.7 else rng.choice(order)
+    for x in leads:                            # the lead-in waits for something the target owns
+        pos = len(closing) if rng.random() < 0.7 else rng.randrange(len(closing) + 1)
+        closing.insert(pos, f"acq {x} {target}")
+    lines += closing + ["deadlock"]
+    lines += rng.choice([["maint"], ["maint"], ["boost", "watchdog"], ["boost", "boost", "watchdog"], ["boost", "maint"]])
+    lines += ["deadlock", "watchdog"]
+    return {"lines": lines, "note": "priority inheritance lifts one ring member above another before the watchdog looks"}
